@@ -116,6 +116,9 @@ def generate(rng, tier, idx):
             manifests[gov].append({'tag': rng.choice(['DATA', 'DATA', 'MISC', 'EBUILD']),
                                    'path': os.path.relpath(p, gd or '.'),
                                    'hashes': rng.choice([['SHA256'], ['MD5', 'SHA1'], ['BLAKE2B', 'SHA512']])})
+    # a directory beside the chain, covered by the top-level Manifest alone
+    tree.append({'p': 'zz-other/x', 'k': 'file', 'c': 'beside the chain'})
+    manifests['Manifest'].append({'tag': 'DATA', 'path': 'zz-other/x', 'hashes': ['SHA256']})
     dists = {}
     for mp in manifests:
         if rng.random() < 0.4:
@@ -209,7 +212,9 @@ def generate(rng, tier, idx):
                     # or lookups of other paths) must not let unverified Manifests in
                     pr['pre'] = rng.sample(['find_timestamp', 'find_timestamp', 'lookup:' + rng.choice(plist), 'dist:' + dirs[rng.randrange(len(dirs))],
                                             'dirlm:' + dirs[rng.randrange(len(dirs))], 'dirlm:',
-                                            'dirkg:' + dirs[rng.randrange(len(dirs))], 'dirkg:'],
+                                            'dirkg:' + dirs[rng.randrange(len(dirs))], 'dirkg:'] +
+                                           # (with a second Manifest in the top directory nothing is disjoint from the chain)
+                                           (['updfail:zz-other'] if len(level_m[0]) == 1 else []),
                                            rng.choice([1, 1, 2]))
                 if rng.random() < 0.3:
                     pr['ldr_hashes'] = rng.choice([['BLAKE2B', 'SHA512'], ['SHA3_256'], ['BLAKE2S', 'SHA3_512']])
@@ -326,6 +331,10 @@ def execute(sc):
                             elif pre.startswith('dirkg:'):
                                 # a keep-going directory check (handler returns instead of raising) earlier on this loader
                                 m.assert_directory_verifies(pre[6:], fail_handler=lambda e_: False)
+                            elif pre.startswith('updfail:'):
+                                # an update of a DISJOINT directory (it loads no Manifest of the probed chain) that fails
+                                # half-way and is abandoned: no mode of it may stick to the loader
+                                m.update_entries_for_directory(pre[8:], hashes=['NOPE'])
                         except Exception:
                             pass
                     if op.get('pre'):
